@@ -4327,7 +4327,7 @@ int EGLPNUM_TYPENAME_ILLlib_findName (
 	if (!ILLsymboltab_lookup (tab, buf, &sind))
 	{
 		if (name == NULL) {
-			rval = ILLsymboltab_uname (&qslp->rowtab, buf, p1, p2);
+			rval = ILLsymboltab_uname (tab, buf, p1, p2);
 			CHECKRVALG (rval, CLEANUP);
 		} else {
 			rval = 1;
